@@ -226,6 +226,13 @@ class Path:
                 return False
             if extra.get_id() in ids:
                 return True
+            # a Boolean variable (or its negation) that no conjunct of the path condition mentions can
+            # take either value (the path condition is satisfiable by construction)
+            core = neg if neg is not None else extra
+            if z3.is_const(core) and core.decl().kind() == z3.Z3_OP_UNINTERPRETED:
+                nm = core.decl().name()
+                if not any(nm in term_vars(c) for c in self.pc):
+                    return True
         s = z3.Solver()
         s.set("timeout", self.FEAS_TIMEOUT_MS)
         if extra is None:
@@ -369,7 +376,7 @@ class Path:
                 # prefer a small counterexample: try to pin loop indices / lengths down
                 for iname, iv in self.inputs.items():
                     if isinstance(iv, SInt) and (iname.endswith(":k") or "len" in iname or "count" in iname):
-                        for bound in (0, 2, 16):
+                        for bound in (0, 1, 2, 16):
                             s.push()
                             s.add(iv.t <= bound)
                             s.set("timeout", 3000)
